@@ -42,7 +42,10 @@ def scripts(rng):
     # nothing but Package::create (whose own final flush must not lose an error), and a session that only writes a stream:
     # no call re-arms the deferred write-back, so whatever create left unwritten would stay unwritten
     only_stream = ["(write_stream %s (%s))" % (X.enc_str("Blob"), " ".join(str(i % 7) for i in range(100)))]
-    return {"dml": s1, "stream-flush": s2, "drop": s3, "many-inserts": many, "create-only": [], "stream-only": only_stream}
+    seek_stream = ["(x_write_seek %s (%s))" % (X.enc_str("Payload"), " ".join(str(i % 11) for i in range(300))),
+                   "(x_write_seek %s (%s))" % (X.enc_str("Big"), " ".join(str(i % 13) for i in range(9000)))]
+    return {"dml": s1, "stream-flush": s2, "drop": s3, "many-inserts": many, "create-only": [], "stream-only": only_stream,
+            "stream-seek": seek_stream}
 
 
 def fr(k, persistent, mode, cmds):
